@@ -14,7 +14,7 @@ theorem pin_errors_list_removeMultiples : Gen.C02.pin_errors_list_removeMultiple
 theorem pin_errors_comparePosWithNoPosFirst : Gen.C02.pin_errors_comparePosWithNoPosFirst = "c164d7c7cd7818dd" := by decide
 theorem pin_errors_Print : Gen.C02.pin_errors_Print = "90c9148cabe788e5" := by decide
 theorem pin_errors_Errors : Gen.C02.pin_errors_Errors = "5f65bfc7f7b6839b" := by decide
-theorem pin_errors_appendToList : Gen.C02.pin_errors_appendToList = "80bc8d062b089f5c" := by decide
+theorem pin_errors_appendToList : Gen.C02.pin_errors_appendToList = "0e99e3e53321deb5" := by decide
 theorem pin_token_Pos_Compare : Gen.C02.pin_token_Pos_Compare = "9318dfc39e699905" := by decide
 theorem pin_token_Pos_IsValid : Gen.C02.pin_token_Pos_IsValid = "bde37ca2594d007d" := by decide
 theorem pin_token_Pos_Filename : Gen.C02.pin_token_Pos_Filename = "6795ed360d790756" := by decide
